@@ -45,7 +45,11 @@ TermTag(o) == (IF WithCause(o) THEN "cause+" ELSE "") \o
               ELSE "plain"
 LateOps(o) == HasCx(o) /\ \E i \in CxI(o)..Len(o.steps) : o.steps[i].c = "-" /\ o.steps[i].s \in {"sethdr", "sendhdr", "send", "settrl"}
 LateSendHdr(o) == HasCx(o) /\ \E i \in CxI(o)..Len(o.steps) : o.steps[i].c = "-" /\ o.steps[i].s = "sendhdr"
-HdrTag(o) == IF LateSendHdr(o) THEN "handler-sent-header-after-context-end" ELSE
+\* a SetHeader after an explicit SendHeader or a message of the handler
+LateSetHdr(o) == \E i \in 1..Len(o.steps) : o.steps[i].s = "sethdr" /\ (~HasCx(o) \/ i < CxI(o))
+                                           /\ \E k \in 1..(i - 1) : o.steps[k].s \in {"sendhdr", "send"}
+HdrTag(o) == IF LateSetHdr(o) THEN "set-header-after-headers-sent" ELSE
+             IF LateSendHdr(o) THEN "handler-sent-header-after-context-end" ELSE
              IF LateOps(o) THEN "handler-continued-after-context-end" ELSE
              IF HdrSetUnsent(o) /\ (~HasCx(o) \/ RetI(o) < CxI(o)) THEN "set-but-no-message-sent"
              ELSE IF HasCx(o) THEN "context-end" ELSE "plain"
@@ -56,7 +60,9 @@ TrlTag(o) == IF TrlAfterResp(o) THEN "set-after-response" ELSE IF RespThenErr(o)
 Allowed(o) == { Transcript(s) : s \in Run(o.shape, o.req, o.mdk, o.steps) }
 \* what the server saw once the client's context ended is not asserted
 Seen(o, t) == [msgs |-> t.msgs, term |-> t.term, hdrs |-> t.hdrs, trls |-> t.trls, reqmd |-> t.reqmd,
-               srecv |-> IF HasCx(o) THEN SelectSeq(t.srecv, LAMBDA r : r.i < CxI(o)) ELSE t.srecv]
+               srecv |-> IF HasCx(o) THEN SelectSeq(t.srecv, LAMBDA r : r.i < CxI(o)) ELSE t.srecv,
+               \* whether SetHeader reported an error to the handler (not which), while the call was live
+               shdr |-> IF HasCx(o) THEN SelectSeq(t.shdr, LAMBDA r : r.i < CxI(o)) ELSE t.shdr]
 SeqMatch(e, g) == Len(e) = Len(g) /\ \A k \in 1..Len(e) : MDMatch(e[k], g[k])
 \* A client that finds its own writes in a later metadata read was handed the stream's map:
 \* that is the copy clause; the metadata values of such a transcript are not judged again
@@ -64,7 +70,7 @@ SeqMatch(e, g) == Len(e) = Len(g) /\ \A k \in 1..Len(e) : MDMatch(e[k], g[k])
 OwnWrites(t0) == \E k \in 1..Len(t0.alias) : t0.alias[k] = "client-write-seen-in-later-metadata-read"
 MdMatch(e, g, own) == IF own THEN Len(e) = Len(g) ELSE SeqMatch(e, g)
 Match(e, t, own) == /\ e.msgs = t.msgs /\ e.term = t.term /\ MdMatch(e.hdrs, t.hdrs, own) /\ MdMatch(e.trls, t.trls, own)
-                    /\ e.srecv = t.srecv /\ (e.reqmd = -2 \/ e.reqmd = t.reqmd)
+                    /\ e.srecv = t.srecv /\ e.shdr = t.shdr /\ (e.reqmd = -2 \/ e.reqmd = t.reqmd)
 
 CallFails(o, t0) ==
   LET t == Seen(o, t0)  A == Allowed(o)  own == OwnWrites(t0) IN
@@ -77,6 +83,7 @@ CallFails(o, t0) ==
                    \cup If(\E e \in A : MdMatch(e.hdrs, t.hdrs, own), "header:" \o HdrTag(o))
                    \cup If(\E e \in A : MdMatch(e.trls, t.trls, own), "trailer:" \o TrlTag(o))
                    \cup If(\E e \in A : e.srecv = t.srecv, "server-received:" \o TermTag(o))
+                   \cup If(\E e \in A : e.shdr = t.shdr, "set-header-result:" \o HdrTag(o))
                    \cup If(\E e \in A : e.reqmd = -2 \/ e.reqmd = t.reqmd, "request-metadata:" \o (IF o.mdk = 2 THEN "incoming-only-context" ELSE IF o.mdk = 1 THEN "no-metadata" ELSE TermTag(o)))
              IN IF parts = {} THEN {"combination:" \o (IF HdrTag(o) = "set-but-no-message-sent" THEN HdrTag(o) ELSE TermTag(o))}
                 ELSE parts)
